@@ -9,6 +9,7 @@ import (
 	"bytes"
 	"context"
 	"fmt"
+	"net"
 	"net/textproto"
 	"sort"
 	"strings"
@@ -34,6 +35,11 @@ type Case struct {
 	Answer    string  `json:"target_answer"` // small | empty | 5k | 100k | chunked | chunked_big
 	Connect   bool    `json:"connect_gun"`   // gun type connect (CONNECT tunnel to the target first) instead of http
 	HTTP2     bool    `json:"http2_gun"`     // gun type http2 against a TLS target that negotiates h2 (needs ssl: true)
+	// the gun's target is written as a DNS name ("localhost:<port>", the docs' `target: [hostname]:443`) instead of the
+	// listener's IP literal; http and http2 guns only
+	ByName bool `json:"target_by_name,omitempty"`
+	// dial.dns-cache: false (default true: the name is resolved once per pool when the gun factory is built)
+	NoDNSCache bool `json:"dns_cache_off,omitempty"`
 }
 
 var cfgHeaderNames = []string{"X-Test", "Accept", "User-Agent", "Cookie", "X-Cfg-Only", "Authorization", "X-Other-Cfg", "Referer"}
@@ -83,7 +89,35 @@ func genCase(t *rapid.T) Case {
 		c.HTTP2 = true
 		c.NoKeep = rapid.Bool().Draw(t, "http2NoKeepAlive")
 	}
+	// how the user wrote the target: an IP literal or a host name. "The target's host" of the Host clause is what the
+	// config says, whatever address the name resolves to. (Not for the connect gun: it has no documentation, and what
+	// it names in its CONNECT line and in the tunnelled requests is the address it dials.)
+	if !c.Connect && rapid.IntRange(0, 2).Draw(t, "targetByName") == 0 {
+		c.ByName = true
+		c.NoDNSCache = rapid.IntRange(0, 3).Draw(t, "dnsCacheOff") == 0
+	}
 	return c
+}
+
+// nameFor returns "localhost:<port>" for a listener on a loopback address when the name localhost resolves to that
+// address on this machine (pandora's own Test_preResolveTargetAddr assumes the same), "" otherwise.
+func nameFor(addr string) string {
+	host, port, err := net.SplitHostPort(addr)
+	if err != nil {
+		return ""
+	}
+	ctx, cancel := context.WithTimeout(context.Background(), 5*time.Second)
+	defer cancel()
+	ips, err := net.DefaultResolver.LookupHost(ctx, "localhost")
+	if err != nil {
+		return ""
+	}
+	for _, ip := range ips {
+		if ip == host {
+			return net.JoinHostPort("localhost", port)
+		}
+	}
+	return ""
 }
 
 type wantReq struct {
@@ -202,6 +236,18 @@ func check(c Case, o *vf.Obs) error {
 		addr, records, connects = tg.Addr(), tg.Records, tg.Connects
 		connsOpen = func() int { return int(tg.ConnsAccepted()) }
 	}
+	// the target as the config names it
+	confTarget, byName := addr, false
+	if c.ByName {
+		if c.Connect {
+			return fmt.Errorf("harness: target by name is not generated for the connect gun: %+v", c)
+		}
+		if n := nameFor(addr); n != "" {
+			confTarget, byName = n, true
+		} else {
+			o.Class("target_by_name_unavailable_localhost_does_not_resolve_to_listener")
+		}
+	}
 	want := expected(c)
 	E := len(want)
 	total := E * c.Passes
@@ -223,8 +269,12 @@ func check(c Case, o *vf.Obs) error {
 	}
 	// connection set-up timeouts (defaults: 3 s dial, 1 s TLS handshake) are not this property's subject: far out of
 	// the way, so that a starved machine does not turn into requests the gun gave up on
-	gun := map[string]any{"type": "http", "target": addr, "ssl": c.SSL,
-		"tls-handshake-timeout": "30s", "dial": map[string]any{"timeout": "30s"}}
+	dial := map[string]any{"timeout": "30s"}
+	if c.ByName && c.NoDNSCache {
+		dial["dns-cache"] = false
+	}
+	gun := map[string]any{"type": "http", "target": confTarget, "ssl": c.SSL,
+		"tls-handshake-timeout": "30s", "dial": dial}
 	if c.Connect {
 		gun["type"] = "connect"
 	}
@@ -263,7 +313,7 @@ func check(c Case, o *vf.Obs) error {
 	for k := 0; k < total; k++ {
 		w := want[k%E]
 		if c.Instances == 1 {
-			if err := matches(w, recs[k], addr, c.HTTP2); err != nil {
+			if err := matches(w, recs[k], confTarget, c.HTTP2); err != nil {
 				return fmt.Errorf("request %d (entry %d): %v\nconfig headers %v\n--- file (%s) ---\n%q", k, k%E, err, c.Headers, c.File.Format, c.File.Render())
 			}
 			continue
@@ -274,7 +324,7 @@ func check(c Case, o *vf.Obs) error {
 			if used[i] {
 				continue
 			}
-			if err := matches(w, r, addr, c.HTTP2); err == nil {
+			if err := matches(w, r, confTarget, c.HTTP2); err == nil {
 				used[i] = true
 				found = true
 				break
@@ -307,10 +357,18 @@ func check(c Case, o *vf.Obs) error {
 	}
 	// the same two clauses on what the target's accept / handshake counter shows (also connections that carried
 	// no request)
-	if n := connsOpen(); c.NoKeep && n != len(recs) {
-		return fmt.Errorf("%v gun, keep-alives disabled: the target saw %d connections being set up for %d requests, expected one connection per request", gun["type"], n, len(recs))
-	} else if !c.NoKeep && n > c.Instances {
-		return fmt.Errorf("%v gun, keep-alives enabled, %d instances, but the target saw %d connections being set up for %d requests", gun["type"], c.Instances, n, len(recs))
+	// With a target given by name and dial.dns-cache on (the default), the pool resolves the name once, before any
+	// instance exists, by connecting to it (netutil.LookupReachable: "tries to resolve addr via connecting to it") and
+	// closes that connection without a request: it is no instance's connection, the plain accept counter sees it (the
+	// handshake counter of the h2 target does not). Every other case is judged exactly as before.
+	probe := 0
+	if byName && !c.NoDNSCache && !c.HTTP2 {
+		probe = 1
+	}
+	if n := connsOpen(); c.NoKeep && (n < len(recs) || n > len(recs)+probe) {
+		return fmt.Errorf("%v gun, keep-alives disabled: the target saw %d connections being set up for %d requests (%d of them the pool's DNS pre-resolve), expected one connection per request", gun["type"], n, len(recs), probe)
+	} else if !c.NoKeep && n > c.Instances+probe {
+		return fmt.Errorf("%v gun, keep-alives enabled, %d instances, but the target saw %d connections being set up for %d requests (%d of them the pool's DNS pre-resolve)", gun["type"], c.Instances, n, len(recs), probe)
 	}
 	// classes
 	overlap, hostAmmo := false, false
@@ -343,6 +401,16 @@ func check(c Case, o *vf.Obs) error {
 	o.ClassIf(overlap, "config_header_overlaps_ammo")
 	o.ClassIf(overlap, "overlap_"+c.File.Format)
 	o.ClassIf(hostAmmo, "host_from_ammo")
+	hostDefaulted := false
+	for _, w := range want {
+		hostDefaulted = hostDefaulted || w.hostFromTarget
+	}
+	o.ClassIf(byName, "target_by_name")
+	o.ClassIf(byName && hostDefaulted, "target_by_name_host_defaulted")
+	o.ClassIf(byName && hostDefaulted && c.SSL, "target_by_name_host_defaulted_ssl")
+	o.ClassIf(byName && hostDefaulted && c.HTTP2, "target_by_name_host_defaulted_http2")
+	o.ClassIf(byName && c.NoDNSCache, "target_by_name_dns_cache_off")
+	o.ClassIf(!byName && hostDefaulted, "target_ip_literal_host_defaulted")
 	o.ClassIf(c.SSL, "ssl")
 	o.ClassIf(c.NoKeep, "keep_alive_off")
 	o.ClassIf(c.Instances >= 2, "instances_ge_2")
